@@ -141,7 +141,7 @@ class C16(Property):
             if r["outcome"] != "ok":
                 ctx.fail(f"run:{r['outcome']}", f"{name}: {r.get('msg', '')[:300]}", replay)
                 continue
-            bad = {s: st for s, st in r["statuses"].items() if st != "COMPLETED"}
+            bad = {s: st for s, st in r["statuses"].items() if st not in ("COMPLETED", "SKIPPED")}
             if bad:
                 ctx.fail("step-not-completed", f"{name}: {bad}", replay)
             if not case.get("ref"):
